@@ -21,6 +21,14 @@ pub mod stdspec {
     pub broadcast proof fn ax_int_roundtrip(k: int)
         ensures -0x20_0000_0000_0000 <= k <= 0x20_0000_0000_0000 ==> f_to_int(#[trigger] f_of_int(k)) == k {}
 
+    // i32::abs (not specified by vstd): overflow for i32::MIN is a Rust panic in debug builds -> precondition
+    pub assume_specification [i32::abs] (x: i32) -> (r: i32)
+        requires x != i32::MIN
+        ensures r == (if x < 0 { -x } else { x as int });
+    pub assume_specification [i64::abs] (x: i64) -> (r: i64)
+        requires x != i64::MIN
+        ensures r == (if x < 0 { -x } else { x as int });
+
     // rule R22: `<[usize]>::contains` on a 2-array (assumed contract)
     #[verifier::external_body]
     pub fn arr2_contains(a: [usize; 2], x: usize) -> (r: bool) ensures r == (a[0] == x || a[1] == x) { a.contains(&x) }
